@@ -703,6 +703,30 @@ def F38():
         r = "%s: %s" % (type(e).__name__, str(e).split("\n")[0][:50])
     return r != "accepted", "honest p2sh-p2wpkh output with derivation -> %s" % r
 
+def F39():
+    """p2sh 2-of-3 output spent with ScriptSig `<RedeemScript> OP_NOP` (no signature)"""
+    from buidl.ecc import PrivateKey
+    from buidl.helper import hash160
+    from buidl.script import Script, RedeemScript, P2SHScriptPubKey, P2WPKHScriptPubKey
+    from buidl.tx import Tx, TxIn, TxOut
+    import contextlib, io
+    keys = [PrivateKey(1000 + i) for i in range(3)]
+    redeem = RedeemScript([0x52] + [k.point.sec() for k in keys] + [0x53, 0xAE])
+    spk = P2SHScriptPubKey(hash160(redeem.raw_serialize()))
+    tx_in = TxIn(bytes.fromhex("22" * 32), 0)
+    tx_in._value, tx_in._script_pubkey = 100000, spk
+    tx = Tx(1, [tx_in], [TxOut(90000, P2WPKHScriptPubKey(bytes(20)))], 0, network="testnet")
+    res = []
+    for extra in ([0x61], [0x76, 0x75]):
+        tx_in.script_sig = Script([redeem.raw_serialize()] + extra)
+        try:
+            with contextlib.redirect_stdout(io.StringIO()):
+                r = tx.verify_input(0)
+        except Exception as e:
+            r = type(e).__name__
+        res.append(r)
+    return any(r is True for r in res), "verify_input of a signature-free p2sh spend with opcodes after the RedeemScript -> %s" % res
+
 def K1():
     from buidl.op import op_2rot
     st = [b"1", b"2", b"3", b"4", b"5", b"6"]
